@@ -4,7 +4,7 @@ Domain (fault enumeration): for several small trees, B = the cache bytes a scan 
          state before the next scan: truncation of codelimit.json at EVERY byte offset 0..len(B) (what an interrupted
          write_text leaves); structural faults - file missing, empty, whitespace, not JSON, binary garbage, every JSON
          scalar / array / object as the whole document, deletion of the member at every key path, replacement of the
-         value at every key path by each wrong-typed value among null, 0, "s", [], {}; cache directory without the file or
+         value at every key path by each wrong-typed value among null, 0, "s", [], {}, 1.5, true (also inside the stored profile lists); cache directory without the file or
          without its marker files; Hypothesis sequences of
          (fault, scan, edit, fault, scan ...).
 Oracle : the scan completes (exit 0, no exception); the cache it leaves parses as JSON, is accepted by ReportReader and
@@ -174,11 +174,11 @@ def key_paths(doc, prefix=()):
     return out
 
 
-WRONG = [None, 0, "s", [], {}]
+WRONG = [None, 0, "s", [], {}, 1.5, True]
 
 
 def _jtype(v):
-    return "null" if v is None else "number" if isinstance(v, (int, float)) and not isinstance(v, bool) else type(v).__name__
+    return "null" if v is None else "bool" if isinstance(v, bool) else "integer" if isinstance(v, int) else "float" if isinstance(v, float) else type(v).__name__
 
 
 def run_case(case):
